@@ -83,7 +83,9 @@ def DParametric (fm1 e2m1 tx ty : α) : α :=
     RealLike.atan2 (fm1 * (ty - tx)) (1 + e2m1 * tx * ty) / RealLike.atan2 (ty - tx) (1 + tx * ty)
   else
     let tx := 1 / tx; let ty := 1 / ty
-    RealLike.atan2 (fm1 * (ty - tx)) (e2m1 + tx * ty) / RealLike.atan2 (ty - tx) (1 + tx * ty)
+    -- reciprocals of distinct tangents can coincide: the confluent value (fix 6ffdf79)
+    if RealLike.eqb tx ty then fm1 * (1 + tx * tx) / (e2m1 + tx * tx)
+    else RealLike.atan2 (fm1 * (ty - tx)) (e2m1 + tx * ty) / RealLike.atan2 (ty - tx) (1 + tx * ty)
 
 /-- `DAuxLatitude::Datanhee` (`e = √|e²|`, `e1 = √|e'²|`) -/
 def Datanhee (f e e1 fm1 x y : α) : α :=
